@@ -5,7 +5,7 @@
    Line shape (written by kv-oauth c38):
    {"a":"authz","n":N,"case":{...concrete cfg/req, for replay...},
     "f":{"type","lh","pkce_disable","consent","reg":[{"s":url,"scheme":..}],"smap":{g:[..]},"sup":{g:[..]},
-         "u":normalised request url,"host","scheme","ident":"none|anon|user","groups":[..],
+         "u":normalised request url,"host","hl":[labels of host],"scheme","ident":"none|anon|user","groups":[..],
          "prevset":BOOL,"prevscopes":[..],"scopes":[..],"pkce":"none|s256|plain","prompt":".."},
     "res":"code|consent|authreq|reauth|err:..","permit":"ok|err:..|na","code":BOOL,"xchg":"ok|fail:..|na","granted":[..]}
    Lines with "a":"skip" (a configuration the server itself refused) carry no observation. *)
@@ -13,9 +13,15 @@ EXTENDS KOAuth2, Json, IOUtils
 Rec == ndJsonDeserialize(IOEnv.TRACE)
 VARIABLE l
 
-\* Hosts that are loopback / localhost. The harness only generates loopback hosts from this list
-\* (any other host it generates is not loopback).
-LoopbackHosts == {"localhost", "127.0.0.1", "127.8.8.8", "[::1]"}
+\* "Real loopback" is judged HERE, on the logged host string (normalised by the url crate) and its
+\* dot-separated labels `hl` (a mechanical split done by the harness): exactly the name localhost, an
+\* IPv4 literal in 127.0.0.0/8, or the IPv6 literal ::1.  Nothing else (notlocalhost, app.localhost,
+\* localhost.evil.example, 127.0.0.1.evil.example, 128.0.0.1, [::2], ...) is loopback.
+DecOctets == {ToString(n) : n \in 0..255}
+IsLoopbackHost(host, hl) ==
+  \/ host = "localhost"
+  \/ host = "[::1]"
+  \/ (Len(hl) = 4 /\ hl[1] = "127" /\ \A i \in 1..4 : hl[i] \in DecOctets)
 \* Scope strings with invalid syntax used by the generators (L2 only).
 KnownBadScopes == {"bad!scope", "-lead", "trail-", "sp@ce"}
 
@@ -34,7 +40,7 @@ FactsOf(r) ==
       consentOn |-> (f.type = "public" \/ f.consent),
       secureReq |-> (\E x \in regs : x.scheme = "https"),
       uReg |-> (inreg /\ web), uApp |-> (inreg /\ ~web),
-      uLoop |-> (f.host \in LoopbackHosts), uHttps |-> (f.scheme = "https"),
+      uLoop |-> IsLoopbackHost(f.host, f.hl), uHttps |-> (f.scheme = "https"),
       pkce |-> f.pkce,
       prompt |-> f.prompt,
       ident |-> f.ident,
